@@ -221,23 +221,28 @@ class Ctx:
                 'log_tail': log[-3000:]})
         return not missing
 
-    def build_with_translator(self, files, extra_files=(), extra_obligation_files=()):
+    def build_with_translator(self, files, extra_files=(), extra_obligation_files=(), after_files=()):
         """`build` + the translator tie: definitions regenerated from /repo's current source by harness/translate_all
         and the committed CNN_GenEq.v that proves them equal to the model functions (inserted before the property file).
         `extra_files` (in dependency order) / `extra_obligation_files`: further committed developments whose theorems
-        count as obligations of this property (e.g. the real-number files C01R_*, C07R_*)."""
+        count as obligations of this property (e.g. the real-number files C01R_*, C07R_*).
+        `after_files`: developments that Require the property file itself (they come after it; all of them that end in
+        _Properties.v count as obligation files, as does the property file)."""
         from . import translate_all
         extra_files = list(extra_files)
+        after_files = list(after_files)
+        if after_files:
+            extra_obligation_files = list(extra_obligation_files) + [files[-1]] + [f for f in after_files[:-1] if f.endswith('_Properties.v')]
         try:
             gen, extra = translate_all.generated_for(self.pid)
         except KeyError:
             gen, extra = None, []
         except Exception as e:   # the translator itself failed: fail closed
             self.broken_obligation('translator', {'error': repr(e)[:500]})
-            return self.build(files[:-1] + extra_files + files[-1:], obligation_files=list(extra_obligation_files))
+            return self.build(files[:-1] + extra_files + files[-1:] + after_files, obligation_files=list(extra_obligation_files))
         geneq = [f for f in extra if f.endswith('_GenEq.v')]
-        return self.build(files[:-1] + [f for f in extra if f not in files] + extra_files + files[-1:], generated=gen,
-                          obligation_files=geneq + list(extra_obligation_files))
+        return self.build(files[:-1] + [f for f in extra if f not in files] + extra_files + files[-1:] + after_files,
+                          generated=gen, obligation_files=geneq + list(extra_obligation_files))
 
     def broken_obligation(self, what, detail):
         """A proof obligation does not check: V has to decide; callers normally
